@@ -1883,7 +1883,21 @@ class Models(object):
         h = self.hooks.get('real_if_close')
         if h is not None:
             return h(self, a, tol)
-        raise AnalysisError('np.real_if_close on values whose imaginary parts are not determined (needs a rule specific model)')
+        # whether the imaginary parts are negligible is a question about the data: a decision of the program, put to the
+        # branch oracle of the run like the test of an `if` (a run without an oracle ends here, undecided)
+        import ast as _ast
+        from .absint import Frame
+        I = self.interp
+        mags = [ndarr.s_abs(v) if not isinstance(v, (Unk, Choice)) else v for v in im]
+        cond = None
+        for m in mags:
+            c = Unk(('cmp', '<=', m, Poly.sym('EPS') * tol)) if not isinstance(m, Unk) else m
+            cond = c if cond is None else Unk(('and', cond.expr, c.expr))
+        mod, node = I.cur if I.cur is not None else (None, None)
+        if node is None:
+            raise AnalysisError('np.real_if_close on values whose imaginary parts are not determined')
+        close = I.truth(cond, node, Frame(mod))
+        return self.apply_ufunc('real', a) if close else a
 
     def np_cumprod(self, a, axis=None):
         a = self.np_asarray(a)
